@@ -282,6 +282,15 @@ class Sut(object):
                     if len(r.created_webentities) != 1:
                         out.append(D(["C12"], "one-request-several-ids", got=dict(r.created_webentities)))
                     self._bind_report(r, out, k)
+            elif k == "create_many":
+                # one accepted creation request per prefix (all fresh): ids far beyond one or two bytes
+                for p_ in op["prefixes"]:
+                    m.create_webentity([p_])
+                    r = t.create_webentity([p_])
+                    if len(r.created_webentities) != 1:
+                        out.append(D(["C12"], "one-request-several-ids", got=dict(r.created_webentities)))
+                    self._bind_report(r, out, k)
+                self.last_report = (0, len(op["prefixes"]))
             elif k == "delete":
                 gid = m.we.get(op["of"])
                 ps = [p for p in op["prefixes"] if m.we.get(p) == gid]
@@ -470,7 +479,7 @@ class Sut(object):
                 "batch": ["C01", "C03"], "create": ["C04"], "delete": ["C04"], "addp": ["C04"],
                 "rmp": ["C04"], "mvp": ["C04"], "rule": ["C06"], "rmrule": ["C06"],
                 "reopen": ["C11"], "clear": ["C11"], "bad_delete": ["C04"], "bad_rmp": ["C04"], "bad_mvp": ["C04"],
-                "overwrite_open": ["C11"], "bystander": ["C12"], "addp_foreign": ["C04"], "touch": ["C14"],
+                "overwrite_open": ["C11"], "bystander": ["C12"], "addp_foreign": ["C04"], "touch": ["C14"], "create_many": ["C12", "C04"],
             }[k]
             out.append(D(props, "exception-in-write", op=k, exc=type(e).__name__, msg=str(e)[:200],
                          tb=traceback.format_exc()[-600:], backend=self.cfg["backend"]))
